@@ -557,6 +557,107 @@ def check_visitor_scopes(prog, run, classes, scope, floor):
                                                                         "leave_%s does not assign it" % kind if leave is not None else "the class has no leave_%s" % kind))
 
 
+# ------------------------------------------------------------------------------------------------ search loops
+def check_search_loops(prog, run, funcs, scope, floor):
+    r = run.rule("Z11", "anchored modules (%s): a `for` loop over a collection never leaves with `break` (or returns an 'absent' "
+                        "constant) because the current element FAILS to match — the break is not under `<element> != / not in / is not "
+                        "…` nor in the else-branch of an equality test on the element: giving up at the first non-matching element "
+                        "makes the answer depend on what happens to come first (a directive found only when it is written first)" % scope, floor)
+    from . import shapes
+    n = 0
+    for f in funcs:
+        if isinstance(f.node, ast.Lambda):
+            continue
+        for L in own_walk(f.node):
+            if not isinstance(L, (ast.For, ast.AsyncFor)):
+                continue
+            n += 1
+            lv = _target_names(L.target)
+            if not lv:
+                continue
+
+            def mentions_elem(e, lv=lv):
+                return any(isinstance(x, ast.Name) and x.id in lv for x in ast.walk(e))
+            for b in own_walk(L):
+                if not isinstance(b, ast.Break):
+                    continue
+                # only breaks of THIS loop
+                cur, inner = getattr(b, "_parent", None), False
+                chain = []
+                child = b
+                while cur is not None and cur is not L:
+                    if isinstance(cur, (ast.For, ast.AsyncFor, ast.While)):
+                        inner = True
+                    if isinstance(cur, ast.If):
+                        chain.append((cur, any(child is x for x in cur.body)))
+                    child, cur = cur, getattr(cur, "_parent", None)
+                if inner:
+                    continue
+                for test_if, in_body in chain:
+                    for term, pos in shapes.signed_subterms(test_if.test, lambda e: isinstance(e, ast.Compare) and len(e.ops) == 1
+                                                            and isinstance(e.ops[0], (ast.Eq, ast.NotEq, ast.In, ast.NotIn, ast.Is, ast.IsNot))):
+                        if not (mentions_elem(term.left) and isinstance(term.left, (ast.Attribute, ast.Name, ast.Subscript))):
+                            continue
+                        if isinstance(term.comparators[0], ast.Constant) and term.comparators[0].value is None:
+                            continue          # `x is None` / `x is not None` is not a match test
+                        negative_op = isinstance(term.ops[0], (ast.NotEq, ast.NotIn, ast.IsNot))
+                        mismatch = (negative_op == pos) == in_body
+                        if mismatch:
+                            run.report(r, "%s:%s:break-on-mismatch(%s)" % (f.module.name, f.qualname, _txt(term)[:50]), f.where(b),
+                                       "the loop over `%s` stops at the first element for which `%s` %s: elements after it are never "
+                                       "examined" % (_txt(L.iter)[:50], _txt(term)[:60], "holds" if (negative_op == pos) else "fails"))
+    r.instance("%d for-loops scanned" % n, nontrivial=False)
+
+
+# ------------------------------------------------------------------------------------------------ substring tests
+def check_char_class_tests(prog, run, funcs, scope, floor):
+    r = run.rule("Z12", "anchored modules (%s): `E in S` / `E not in S` with S a string constant (a literal, adjacent literals the parser "
+                        "glues together, or a module-level string) is a character-class test and E is a single character — a local "
+                        "assigned only from single-index subscripts; with a token's text or a name on the left it is a SUBSTRING test "
+                        "(`value in (\"true\" \"false\")` accepts `e`, `als`, `ruefa`)" % scope, floor)
+    for f in funcs:
+        if isinstance(f.node, ast.Lambda):
+            continue
+        for n in own_walk(f.node):
+            if not (isinstance(n, ast.Compare) and len(n.ops) == 1 and isinstance(n.ops[0], (ast.In, ast.NotIn))):
+                continue
+            right = n.comparators[0]
+            is_str = isinstance(right, ast.Constant) and isinstance(right.value, str)
+            if isinstance(right, ast.Name):
+                rr = prog.resolve_name(f.module, right.id)
+                if rr and rr[0] == "assign" and isinstance(rr[1], ast.Constant) and isinstance(rr[1].value, str):
+                    is_str = True
+            if not is_str:
+                continue
+            left = n.left
+            r.instance("%s: `%s`" % (f.qualname, _txt(n)[:60]))
+            ok = False
+            if isinstance(left, ast.Constant) and isinstance(left.value, str) and len(left.value) == 1:
+                ok = True
+            elif isinstance(left, ast.Subscript) and not isinstance(left.slice, ast.Slice):
+                ok = True
+            elif isinstance(left, ast.Name):
+                defs = [x for x in ast.walk(f.node) if isinstance(x, ast.Name) and x.id == left.id and isinstance(x.ctx, ast.Store)]
+                vals = []
+                for d in defs:
+                    par = getattr(d, "_parent", None)
+                    if isinstance(par, (ast.Assign, ast.AnnAssign)) and par.value is not None and (par.targets[0] if isinstance(par, ast.Assign) else par.target) is d:
+                        vals.append(par.value)
+                    elif isinstance(par, (ast.For, ast.comprehension)) and par.target is d:
+                        vals.append(ast.Subscript(value=par.iter, slice=ast.Constant(value=0), ctx=ast.Load()))   # an element of the iterable
+                    else:
+                        vals.append(None)
+                def one_char(v):
+                    if isinstance(v, ast.Subscript) and not isinstance(v.slice, ast.Slice):
+                        return True
+                    return isinstance(v, ast.Constant) and (v.value is None or (isinstance(v.value, str) and len(v.value) <= 1))
+                ok = bool(vals) and all(one_char(v) for v in vals)
+            if not ok:
+                run.report(r, "%s:%s:substring-test(%s)" % (f.module.name, f.qualname, _txt(n)[:50]), f.where(n),
+                           "`%s` tests `%s` for being a substring of the text %r: every fragment of it passes, not only the listed "
+                           "words" % (_txt(n)[:70], _txt(left)[:30], right.value if isinstance(right, ast.Constant) else right.id))
+
+
 def run_bundle(prog, run, files, floors=None):
     mods = _mods(files)
     funcs = [f for f in prog.all_funcs() if f.module.name in mods]
@@ -567,3 +668,5 @@ def run_bundle(prog, run, files, floors=None):
     check_memo_reset(prog, run, classes, scope, floors.get("Z8", 0))
     check_loop_state(prog, run, funcs, scope, floors.get("Z9", 0))
     check_visitor_scopes(prog, run, classes, scope, floors.get("Z10", 0))
+    check_search_loops(prog, run, funcs, scope, floors.get("Z11", 0))
+    check_char_class_tests(prog, run, funcs, scope, floors.get("Z12", 0))
